@@ -52,7 +52,7 @@ def plan_st(draw, tier, max_prefix=6, max_cont=8):
         h.query()
     for _ in range(draw(st.integers(1, max_cont))):
         gen.step_any(h, ["partial_fit", "partial_fit", "fit"] + gen.ARM_KINDS + gen.WARM_KINDS + gen.QUERY_KINDS * 3
-                     + ["cold_arms"], True)
+                     + ["cold_arms", "policies"], True)
     return {"config": cfg, "prefix": h.ops[:n_prefix], "cont": h.ops[n_prefix:]}
 
 
